@@ -1,35 +1,33 @@
 import GaeaVerif.Drv.InsSexp
-import GaeaVerif.Model.GlobalStmt
+import GaeaVerif.Model.GlobalTree
 /-
   Driver for C04 (statements over global tables only).
-  Request: m (g04 (ns SLICE…) (valid DB…) (cfgs GCFG…) STMT)     s <same> <implementation output>
-    GCFG  (gcfg DB (locations…) (slices…) (databases expanded…) (databases as configured…))   one per table reference
-    STMT  (stmt select|update|delete|insert SQLHEX (NAME…) (NAME…) (NAME…))     fields / from / tail
-    NAME  (POS SCHEMA TABLE NAME ALIAS WHOLE)
+  Request: m (g04 (ns SLICE…) (valid DB…) (sess DB) (rules (rule DB TABLE GCFG)…) STMT)     s <same> <implementation output>
+    GCFG  (gcfg DB (locations…) (slices…) (databases expanded…) (databases as configured…))
+    STMT  (stmt select|update|delete|insert SQLHEX (fields F…) (from TREF…) (cols COL…) (rows (row E…)…)
+                (sets (set COL E)…) (ondup (set COL E)…) (where E|-) (group BY…) (having E|-) (order BY…))
+    F     star | (wild SCHEMA TABLE) | (fx E)
+    TREF  (tref SCHEMA TABLE ALIAS E|-)              the ON condition of a joined table
+    COL   (c SCHEMA TABLE NAME)
+    BY    (bcol SCHEMA TABLE NAME) | (bagg E) | blit | bother
+    E     (col SCHEMA TABLE NAME) | v | (node E E) | (cmp E E) | (logic E E) | (binop E E) | (in E E) | (between E E E) | (paren E)
+  The statement is the tree the repository's parser produced for SQLHEX, reduced
+  to the node kinds of Model/GlobalTree.lean by the harness.
   Output: writes  (ok (SLICE DB (CHAIN…))…)            sorted entries, one per produced statement
           reads   (read N (SLICE DB (CHAIN…))…)        N = most statements produced by one planning,
                                                        entries = the distinct statements over all picks
+          (unshard)                                    BuildPlan answered with an unshard plan
+          (router-state-changed …)                     planning changed the router's rules (implementation only)
           err | panic
-  Oracle: a write reaches exactly the configured copies; a read is one
-          statement on a configured copy; no name in a statement still carries a
-          database name other than the database the statement is sent to.
+  Oracle: a statement that names a global table (schema qualifier first, session
+          database otherwise) is planned on the copies; a write reaches exactly
+          the configured copies; a read is one statement on a configured copy;
+          no name in a statement still carries a database name other than the
+          database the statement is sent to; planning leaves the router's rules
+          unchanged.
 -/
 namespace GaeaVerif.Drv.C04
-open GaeaVerif GaeaVerif.Layout GaeaVerif.Global GaeaVerif.Drv.Ins
-
-def pos? : String → Option Pos
-  | "table" => some .tableRef
-  | "select-field" => some .selField
-  | "wildcard-field" => some .selWildcard
-  | "condition-operand" => some .condOperand
-  | "condition-other" => some .condOther
-  | "nested-condition-column" => some .condNested
-  | "by-item" => some .byItem
-  | "set-column" => some .setColumn
-  | "update-set-value" => some .setValue
-  | "insert-column" => some .insColumn
-  | "appended-by-field" => some .byAppended
-  | _ => none
+open GaeaVerif GaeaVerif.Layout GaeaVerif.Global GaeaVerif.GlobalTree GaeaVerif.Drv.Ins
 
 def posName : Pos → String
   | .tableRef => "table"
@@ -37,26 +35,69 @@ def posName : Pos → String
   | .selWildcard => "wildcard-field"
   | .condOperand => "condition-operand"
   | .condOther => "condition-other"
+  | .condRoot => "condition-root-column"
   | .condNested => "nested-condition-column"
+  | .condBinopNested => "other-operator-operand"
+  | .condInItem => "in-list-value"
+  | .condInNested => "in-expression"
+  | .condBetweenBound => "between-bound"
+  | .condBetweenNested => "between-expression"
+  | .having => "having"
   | .byItem => "by-item"
   | .setColumn => "set-column"
   | .setValue => "update-set-value"
   | .insColumn => "insert-column"
   | .byAppended => "appended-by-field"
+  | .byExpr => "by-item-aggregate"
+  | .byExprAppended => "appended-by-aggregate"
+  | .insValue => "insert-value"
 
-/-- positions at which the planner installs a decorator (or strips the qualifiers) -/
-def rewritten : Pos → Bool
-  | .tableRef | .selField | .condOperand | .condOther | .byItem | .setColumn | .insColumn => true
-  | _ => false
-
-def name? : Sexp → Option Name
-  | .list [.atom p, sc, tb, nm, al, wh] => do
-      pure { pos := (← pos? p), schema := (← ident? sc), table := (← ident? tb), name := (← ident? nm),
-             alias := (← ident? al), whole := (← wh.asBool?) }
+def col? : Sexp → Option ColRef
+  | .list [_, sc, tb, nm] => do pure { schema := (← ident? sc), table := (← ident? tb), name := (← ident? nm) }
   | _ => none
 
-def names? : Sexp → Option (List Name)
-  | .list xs => xs.mapM name?
+def expr? : Sexp → Option Expr
+  | .atom "v" => some .val
+  | .list [.atom "col", sc, tb, nm] => do
+      pure (.col { schema := (← ident? sc), table := (← ident? tb), name := (← ident? nm) })
+  | .list [.atom "node", l, r] => do pure (.node (← expr? l) (← expr? r))
+  | .list [.atom "cmp", l, r] => do pure (.cmp (← expr? l) (← expr? r))
+  | .list [.atom "logic", l, r] => do pure (.logic (← expr? l) (← expr? r))
+  | .list [.atom "binop", l, r] => do pure (.binop (← expr? l) (← expr? r))
+  | .list [.atom "in", e, items] => do pure (.inList (← expr? e) (← expr? items))
+  | .list [.atom "between", e, lo, hi] => do pure (.between (← expr? e) (← expr? lo) (← expr? hi))
+  | .list [.atom "paren", e] => do pure (.paren (← expr? e))
+  | _ => none
+
+def optExpr? : Sexp → Option (Option Expr)
+  | .atom "-" => some none
+  | e => do pure (some (← expr? e))
+
+def field? : Sexp → Option Field
+  | .atom "star" => some .star
+  | .list [.atom "wild", sc, tb] => do pure (.wild (← ident? sc) (← ident? tb))
+  | .list [.atom "fx", e] => do pure (.expr (← expr? e))
+  | _ => none
+
+def tref? : Sexp → Option TableRef
+  | .list [.atom "tref", sc, tb, al, on] => do
+      pure { schema := (← ident? sc), table := (← ident? tb), alias := (← ident? al), on := (← optExpr? on) }
+  | _ => none
+
+def byItem? : Sexp → Option ByItem
+  | .atom "blit" => some .lit
+  | .atom "bother" => some .other
+  | .list [.atom "bcol", sc, tb, nm] => do
+      pure (.col { schema := (← ident? sc), table := (← ident? tb), name := (← ident? nm) })
+  | .list [.atom "bagg", e] => do pure (.agg (← expr? e))
+  | _ => none
+
+def assign? : Sexp → Option Assign
+  | .list [.atom "set", c, e] => do pure { col := (← col? c), value := (← expr? e) }
+  | _ => none
+
+def row? : Sexp → Option (List Expr)
+  | .list (.atom "row" :: es) => es.mapM expr?
   | _ => none
 
 def kind? : Sexp → Option StmtKind
@@ -66,18 +107,38 @@ def kind? : Sexp → Option StmtKind
   | .atom "insert" => some .insert
   | _ => none
 
+def stmt? : Sexp → Option TStmt
+  | .list [.atom "stmt", k, _, .list (.atom "fields" :: fs), .list (.atom "from" :: ts), .list (.atom "cols" :: cs),
+           .list (.atom "rows" :: rs), .list (.atom "sets" :: ss), .list (.atom "ondup" :: ds), .list [.atom "where", w],
+           .list (.atom "group" :: gs), .list [.atom "having", h], .list (.atom "order" :: os)] => do
+      pure { kind := (← kind? k), fields := (← fs.mapM field?), tables := (← ts.mapM tref?), cols := (← cs.mapM col?),
+             rows := (← rs.mapM row?), sets := (← ss.mapM assign?), ondup := (← ds.mapM assign?), «where» := (← optExpr? w),
+             groupBy := (← gs.mapM byItem?), having := (← optExpr? h), orderBy := (← os.mapM byItem?) }
+  | _ => none
+
 structure Input where
   ns : List String
   valid : List String
-  cfgs : List GlobalCfg
-  stmt : Stmt
+  sess : String
+  rules : List (String × String × GlobalCfg)
+  stmt : TStmt
+
+def ruleCfg? : Sexp → Option (String × String × GlobalCfg)
+  | .list [.atom "rule", db, tb, cfg] => do pure ((← ident? db), (← ident? tb), (← gcfg? cfg))
+  | _ => none
 
 def input? : Sexp → Option Input
-  | .list [.atom "g04", .list (.atom "ns" :: ns), .list (.atom "valid" :: vs), .list (.atom "cfgs" :: cs),
-           .list [.atom "stmt", k, _, f, fr, tl]] => do
-      pure { ns := (← ns.mapM ident?), valid := (← vs.mapM ident?), cfgs := (← cs.mapM gcfg?),
-             stmt := { kind := (← kind? k), fields := (← names? f), «from» := (← names? fr), tail := (← names? tl) } }
+  | .list [.atom "g04", .list (.atom "ns" :: ns), .list (.atom "valid" :: _), .list [.atom "sess", ss],
+           .list (.atom "rules" :: rs), st] => do
+      -- `Router.ValidDBInRules`: the databases that have a rule (the `valid` form of the line is informative only)
+      let rules ← rs.mapM ruleCfg?
+      pure { ns := (← ns.mapM ident?), valid := rules.map (·.1), sess := (← ident? ss), rules := rules,
+             stmt := (← stmt? st) }
   | _ => none
+
+/-- `NewRouter`: every rule of the namespace must parse -/
+def router? (inp : Input) : Option (List RouterRule) :=
+  inp.rules.mapM fun (db, tb, cfg) => (parseGlobalRule false inp.ns cfg).map fun r => { db := db, table := tb, rule := r }
 
 def showEntry (t : Target (List Chain)) : String :=
   "(" ++ showIdent t.slice ++ " " ++ showIdent t.db ++ " (" ++ " ".intercalate (t.sql.map showChain) ++ "))"
@@ -88,24 +149,27 @@ def dedup (xs : List String) : List String :=
 /-- the model's answer: writes are planned once, reads for every value of
     `rand.Intn(tableLen)` -/
 def model (inp : Input) : String :=
-  match inp.cfgs.mapM (parseGlobalRule false inp.ns) with
+  match router? inp with
   | none => "err"
-  | some rules =>
+  | some router =>
+    let plan := fun pick => planStmt router inp.valid inp.sess inp.stmt 0 pick
     if inp.stmt.kind = .select then
-      let n := match rules with
-        | r :: _ => r.idxs.length
-        | [] => 0
-      let runs := (List.range (max n 1)).map fun pick => planGlobal false inp.valid rules inp.stmt 0 pick
+      let n := match resolveRefs router inp.valid inp.sess inp.stmt.tables with
+        | some (r :: _) => r.idxs.length
+        | _ => 0
+      let runs := (List.range (max n 1)).map plan
       if runs.any (fun r => r.isPanic) then "panic"
       else if runs.any (fun r => match r with | .fail => true | _ => false) then "err"
+      else if runs.any (fun r => match r with | .ok .unshard => true | _ => false) then "(unshard)"
       else
-        let outs := runs.filterMap fun r => match r with | .ok ts => some ts | _ => none
+        let outs := runs.filterMap fun r => match r with | .ok (.shard ts) => some ts | _ => none
         let most := outs.foldl (fun m ts => max m ts.length) 0
         let entries := sortStrings (dedup (outs.flatMap fun ts => ts.map showEntry))
         "(read " ++ toString most ++ String.join (entries.map (" " ++ ·)) ++ ")"
     else
-      match planGlobal false inp.valid rules inp.stmt 0 0 with
-      | .ok ts => "(ok" ++ String.join ((sortStrings (ts.map showEntry)).map (" " ++ ·)) ++ ")"
+      match plan 0 with
+      | .ok (.shard ts) => "(ok" ++ String.join ((sortStrings (ts.map showEntry)).map (" " ++ ·)) ++ ")"
+      | .ok .unshard => "(unshard)"
       | .fail => "err"
       | .panic => "panic"
 
@@ -131,12 +195,18 @@ def posOfChain : List Name → Nat → Option Pos
 
 /-- database names of the layouts: logical and physical -/
 def dbNames (inp : Input) : List String :=
-  inp.cfgs.flatMap fun c => c.db :: c.databases
+  inp.rules.flatMap fun (db, _, c) => db :: c.db :: c.databases
 
-/-- the first chain that still starts with a database name other than `db`;
-    chains at positions the planner rewrites are reported first -/
+/-- the configuration of the first table of the statement that is a global
+    table: in the database of its schema qualifier, else in the session's -/
+def firstCfg (inp : Input) : Option GlobalCfg :=
+  inp.stmt.tables.findSome? fun t =>
+    (inp.rules.find? fun (db, tb, _) => db == effectiveDB inp.sess t && tb == t.table).map fun (_, _, c) => c
+
+/-- the first chain that still starts with a database name other than `db`,
+    reported with the syntactic position of the name it belongs to -/
 def foreignDb (inp : Input) (o : Obs) : Option String :=
-  let names := textNames inp.stmt
+  let names := textNames (skeleton inp.stmt)
   let total := (names.map chainCount).foldl (· + ·) 0
   let bad := (List.range o.chains.length).filter fun k =>
     match o.chains[k]? with
@@ -145,16 +215,14 @@ def foreignDb (inp : Input) (o : Obs) : Option String :=
   if bad.isEmpty then none
   else if total != o.chains.length then some "database-name-not-rewritten"
   else
-    let ps := bad.filterMap (posOfChain names)
-    match ps.find? rewritten, ps with
-    | some p, _ => some ("database-name-not-rewritten-in-" ++ posName p)
-    | none, p :: _ => some ("database-name-not-rewritten-in-" ++ posName p)
-    | none, [] => some "database-name-not-rewritten"
+    match bad.filterMap (posOfChain names) with
+    | p :: _ => some ("database-name-not-rewritten-in-" ++ posName p)
+    | [] => some "database-name-not-rewritten"
 
 def oracle (inp : Input) (out : Sexp) : String :=
-  let want := match inp.cfgs with
-    | c :: _ => copies c
-    | [] => []
+  let want := match firstCfg inp with
+    | some c => copies c
+    | none => []
   let judge (obs : List Obs) (isRead : Bool) (most : Nat) : String :=
     let got := obs.map fun o => (o.slice, o.db)
     let placement :=
@@ -174,6 +242,10 @@ def oracle (inp : Input) (out : Sexp) : String :=
   match out with
   | .atom "err" => "ok"
   | .atom "panic" => "ok"      -- recovered by the session: the statement is rejected
+  | .list [.atom "unshard"] =>
+    -- sent once, to the default slice, as it is: fine unless the statement names a global table
+    if (firstCfg inp).isSome then "viol global-statement-not-planned-on-copies" else "ok"
+  | .list (.atom "router-state-changed" :: _) => "viol router-state-changed-by-planning"
   | .list (.atom "ok" :: es) =>
     match es.mapM obs? with
     | some obs => judge obs false 0
